@@ -1,5 +1,6 @@
 import RasnModel.Ts.Shape
 import RasnModel.Proofs.Struct
+import RasnModel.Ts.Values
 /-
   C18 — TypeScript declarations have the JER shape of each type.
   Spec / model: Ts/Shape.lean. The tie is the harness's structural TypeScript parser: its parse tree of
@@ -140,5 +141,18 @@ theorem C18_array (s : Bool) (e : SrcType) (t : Option Tag) : specTy (.seqOf s e
     makes an array of the LAST alternative only -/
 theorem C18_unparenthesised_array_counterexample :
     appendArr (mkUnion [.lit "p", .lit "q"]) = .union [.lit "p", .arr (.lit "q")] := rfl
+
+/-! ### list values (`Ts/Values`): "braces, brackets and parentheses are balanced" for constants -/
+
+/-- every SEQUENCE OF / SET OF value is rendered with balanced brackets when its elements are — any number of
+    elements, the empty list included, nested to any depth (apply it element by element) -/
+theorem C18_list_value_balanced (xs : List (List Char)) (h : ∀ x, x ∈ xs → Ts.Values.balanced x = true) :
+    Ts.Values.balanced (Ts.Values.renderList xs) = true :=
+  Ts.Values.renderList_balanced xs h
+
+/-- the arm before fix `e19183e`: the empty list value is `]` -/
+theorem C18_old_list_value_counterexample :
+    Ts.Values.renderListOld [] = [']'] ∧ Ts.Values.balanced (Ts.Values.renderListOld []) = false :=
+  Ts.Values.renderListOld_counterexample
 
 end Props.C18
